@@ -43,6 +43,10 @@ def limit_memory():
 
 
 def _on_alarm(signum, frame):
+    # re-arm (see with_timeout): if this exception is swallowed the next alarm comes in 5 s; if it is not, the
+    # unwinding code (finally blocks restoring patched state) has 5 s before it could be interrupted again
+    import signal
+    signal.setitimer(signal.ITIMER_REAL, 5, 5)
     raise CaseTimeout()
 
 
@@ -53,7 +57,9 @@ def with_timeout(f, seconds):
     if threading.current_thread() is not threading.main_thread():
         return f()
     old = signal.signal(signal.SIGALRM, _on_alarm)
-    signal.setitimer(signal.ITIMER_REAL, seconds)
+    # repeating timer: an exception raised by the handler while the interpreter happens to run a gc callback, a __del__ or a
+    # weakref callback is swallowed there ("Exception ignored in ..."), so the alarm must keep coming until it lands in ordinary code
+    signal.setitimer(signal.ITIMER_REAL, seconds, 5)
     try:
         return f()
     finally:
